@@ -74,6 +74,16 @@ CLAIMS = {
    ref="§4 C11",
    note="Narrow: most regressions inside filterAnalyzerNames' string handling are out of reach of these rules; the TOML decoder is trusted.",
    technique="field-exhaustiveness cross-check (types vs. AST/SSA) + guard-edge and value-origin rules"),
+ "C14": dict(
+   text="Exactness of Lengauer–Tarjan on all CFGs is not decided. Decided: the dominator tree is built on the final CFG (nothing reachable from the calls after buildDomTree writes Preds/Succs/Index/Blocks; optimizeBlocks precedes it; no exported function statically reaches a CFG mutator), dominance fields have a single writer family, and the pre/post numbering order in numberDomTree matches the comparison directions in Dominates with both roots numbered.",
+   ref="§4 C14",
+   note="Weak: an error inside the algorithm (semidominator computation, bucket handling) is out of reach of these rules.",
+   technique="field effect sets over the static call graph + ordering queries on SSA"),
+ "C15": dict(
+   text="Soundness w.r.t. executions is not decided. Decided: the absorbing element of the merge table is computed from the source and every 'don't know' funnel (pointer-like default, normalisation, function without fact, unknown/under-described callee, parameters, free variables) yields it in both components; bail-outs return the signature default; results are joined over all returns; facts are exported only after solving and normalising; SA4023 tests only definite facts.",
+   ref="§4 C15",
+   note="Weak: the truth of each transfer rule (e.g. 'dereference implies non-nil') is assumed; instruction/builtin coverage is decided under C03.",
+   technique="constant struct-literal evaluation from SSA stores + guard-edge/dominance rules + merge-table evaluation"),
 }
 
 NOT_APPLICABLE = {
